@@ -242,69 +242,124 @@ def check_pred(e, spec, symbols=None, constraint=None, atom_name=None, extra_con
 
 
 # ------------------------------------------------------------------ D3 rounding bounds
-# Each form is described relative to the real quotient q:  value in (q + lo, q + hi) with closedness flags.
 class Rnd:
-    """value v of an integer expression relative to a real quantity q (given as source text of the quotient):
-    lo < or <= v - q  and  v - q < or <= hi"""
+    """An integer-valued expression v related to a real quotient num/den (linear forms):
+         lo  <(=)  v - num/den  <(=)  hi
+    Plain integers / linear integer terms have den None (num carries them, bounds [0,0])."""
 
-    def __init__(self, q, lo, lo_closed, hi, hi_closed):
-        self.q, self.lo, self.lo_closed, self.hi, self.hi_closed = q, Fraction(lo), lo_closed, Fraction(hi), hi_closed
+    def __init__(self, num, den, lo, lo_closed, hi, hi_closed):
+        self.num, self.den = num, den
+        self.lo, self.lo_closed, self.hi, self.hi_closed = Fraction(lo), lo_closed, Fraction(hi), hi_closed
+
+    @property
+    def q(self):
+        return f'({self.num})/({self.den})' if self.den is not None else f'{self.num}'
 
     def shift(self, c):
-        return Rnd(self.q, self.lo + c, self.lo_closed, self.hi + c, self.hi_closed)
+        return Rnd(self.num, self.den, self.lo + c, self.lo_closed, self.hi + c, self.hi_closed)
+
+    def neg(self):
+        return Rnd(-self.num, self.den, -self.hi, self.hi_closed, -self.lo, self.lo_closed)
+
+    def add(self, o):
+        if self.den is None and self.num.is_const() and self.lo == self.hi == 0:
+            return o.shift(self.num.const)
+        if o.den is None and o.num.is_const() and o.lo == o.hi == 0:
+            return self.shift(o.num.const)
+        if self.den is None and o.den is None:
+            num, den = self.num + o.num, None
+        elif self.den is None:
+            num, den = o.num + _mul(self.num, o.den), o.den
+            if num is None:
+                return None
+        elif o.den is None:
+            num, den = self.num + _mul(o.num, self.den), self.den
+            if num is None:
+                return None
+        elif self.den == o.den:
+            num, den = self.num + o.num, self.den
+        else:
+            return None
+        lo, hi = self.lo + o.lo, self.hi + o.hi
+        return Rnd(num, den, lo, self.lo_closed and o.lo_closed, hi, self.hi_closed and o.hi_closed)
+
+    def within(self, lo, lo_closed, hi, hi_closed):
+        lo, hi = Fraction(lo), Fraction(hi)
+        okl = self.lo > lo or (self.lo == lo and (lo_closed or not self.lo_closed))
+        okh = self.hi < hi or (self.hi == hi and (hi_closed or not self.hi_closed))
+        return okl and okh
+
+    def interval(self):
+        return f'{"[" if self.lo_closed else "("}{self.lo},{self.hi}{"]" if self.hi_closed else ")"}'
 
     def __repr__(self):
-        return f'{"[" if self.lo_closed else "("}{self.lo}, {self.hi}{"]" if self.hi_closed else ")"} + {src(self.q) if isinstance(self.q, ast.AST) else self.q}'
+        return f'{self.interval()} + {self.q}'
+
+
+def _mul(lin, den):
+    """lin * den when one of them is a constant (keeps linearity); None otherwise."""
+    if lin.is_const():
+        return den.scale(lin.const)
+    if den.is_const():
+        return lin.scale(den.const)
+    return None
 
 
 def rounding(e, env=None, nonneg=None):
-    """Rnd for expressions built from floor / ceil / int(x/y) / x//y / math.floor / np.floor and +- integer constants.
-    `env`: name -> AST expression (local definitions to inline). `nonneg`: callable(quotient ast)->bool telling that the
-    quotient is known to be >= 0 (then int() truncation equals floor). Returns None for unknown forms."""
+    """Rnd of an expression built from floor / ceil / int(x/y) / x//y (np./math. prefixes allowed), integer constants,
+    + and - of such terms with a common denominator. `env`: name -> AST expression (local definitions to inline).
+    `nonneg(quotient ast)` -> True when the quotient is known >= 0 (int() truncation then equals floor).
+    Returns None for forms outside this table."""
     env = env or {}
     nonneg = nonneg or (lambda q: False)
 
-    def strip_int(n):
-        # int(<call floor/ceil>) is the identity on integers-valued floats
-        return n
+    def quot(a):
+        if isinstance(a, ast.BinOp) and isinstance(a.op, ast.Div):
+            return linform(a.left, _lin_env(env)), linform(a.right, _lin_env(env))
+        return None
 
-    def rec(n):
-        if isinstance(n, ast.Name) and n.id in env:
-            return rec(env[n.id])
-        if isinstance(n, ast.BinOp) and isinstance(n.op, (ast.Add, ast.Sub)):
-            c = _num_const(n.right)
-            if c is not None and float(c).is_integer():
-                r = rec(n.left)
-                return r.shift(int(c) if isinstance(n.op, ast.Add) else -int(c)) if r else None
-            c = _num_const(n.left)
-            if c is not None and float(c).is_integer() and isinstance(n.op, ast.Add):
-                r = rec(n.right)
-                return r.shift(int(c)) if r else None
+    def rec(n, depth=0):
+        if depth > 20:
             return None
+        if isinstance(n, ast.Name) and n.id in env:
+            return rec(env[n.id], depth + 1)
+        c = _num_const(n)
+        if c is not None and float(c).is_integer():
+            return Rnd(Lin(const=int(c)), None, 0, True, 0, True)
+        if isinstance(n, ast.BinOp) and isinstance(n.op, (ast.Add, ast.Sub)):
+            l, r = rec(n.left, depth + 1), rec(n.right, depth + 1)
+            if l is None or r is None:
+                return None
+            return l.add(r if isinstance(n.op, ast.Add) else r.neg())
+        if isinstance(n, ast.UnaryOp) and isinstance(n.op, ast.USub):
+            r = rec(n.operand, depth + 1)
+            return r.neg() if r else None
         if isinstance(n, ast.BinOp) and isinstance(n.op, ast.FloorDiv):
-            return Rnd(ast.BinOp(left=n.left, op=ast.Div(), right=n.right), -1, False, 0, True)
+            return Rnd(linform(n.left, _lin_env(env)), linform(n.right, _lin_env(env)), -1, False, 0, True)
         if isinstance(n, ast.Call):
             d = dotted(n.func) or ''
             base = d.split('.')[-1]
             if base == 'int' and len(n.args) == 1:
                 a = n.args[0]
-                inner = rec(a)
+                inner = rec(a, depth + 1)
                 if inner is not None:
                     return inner
-                if isinstance(a, ast.BinOp) and isinstance(a.op, ast.Div):
+                q = quot(a)
+                if q is not None:
                     if nonneg(a):
-                        return Rnd(a, -1, False, 0, True)      # truncation == floor for q >= 0
-                    return Rnd(a, -1, False, 1, False)         # truncation toward zero: v - q in (-1, 1)
+                        return Rnd(q[0], q[1], -1, False, 0, True)      # truncation == floor for q >= 0
+                    return Rnd(q[0], q[1], -1, False, 1, False)         # truncation toward zero: v - q in (-1, 1)
                 return None
-            if base == 'floor' and len(n.args) == 1:
-                return Rnd(_unparen(n.args[0]), -1, False, 0, True)
-            if base == 'ceil' and len(n.args) == 1:
-                return Rnd(_unparen(n.args[0]), 0, True, 1, False)
-            if base == 'round':
-                return None
+            if base in ('floor', 'ceil') and len(n.args) == 1:
+                q = quot(n.args[0])
+                if q is None:
+                    return None
+                return Rnd(q[0], q[1], -1, False, 0, True) if base == 'floor' else Rnd(q[0], q[1], 0, True, 1, False)
+        if isinstance(n, ast.Name):
+            return Rnd(Lin({n.id: 1}), None, 0, True, 0, True)     # an integer symbol
         return None
     return rec(e)
 
 
-def _unparen(n):
-    return n
+def _lin_env(env):
+    return None
